@@ -1309,11 +1309,13 @@ theorem licence_step (s : State) (hi : Inv s) (op : Op) (a : AddrStr) (l : Lic)
 
 /-- `op`, executed in state `s`, ISSUES licence `l` under key `k`: it is an accepted licence purchase (message
 or attested sale) naming `k`, for an address that has neither an account nor a licence under any spelling; the
-licence records exactly the amount, denomination and vesting months of the purchase, the payer (the message's
-creator / a configured funder) is debited and the escrow credited by exactly that amount -/
+licence records exactly the amount, denomination and vesting months of the purchase and IS STORED under `k` in the
+state after the operation (where the address has a plain base account), the payer (the message's creator / a
+configured funder) is debited and the escrow credited by exactly that amount -/
 def Issued (s : State) (op : Op) (k : AddrStr) (l : Lic) : Prop :=
   (step s op).2 = .ok ∧ s.acct k.addr = .none ∧ (∀ k' : AddrStr, k'.addr = k.addr → lookupLic s.lics k' = none) ∧
-  0 < l.amount ∧ (step s op).1.escrow l.denom = s.escrow l.denom + l.amount ∧
+  0 < l.amount ∧ lookupLic (step s op).1.lics k = some l ∧ (step s op).1.acct k.addr = .base ∧
+  (step s op).1.escrow l.denom = s.escrow l.denom + l.amount ∧
   ((∃ sg cr amt d m now, op = .create sg cr (some k) amt d m now ∧ l = ⟨amt.toNat, d, m⟩ ∧
       (step s op).1.bal cr d + amt.toNat = s.bal cr d) ∨
    (∃ ch g ct now f, op = .sale ch (some k) g ct now ∧ l = ⟨(g * (grain : Int)).toNat, bondDenom, saleMonths⟩ ∧
@@ -1334,13 +1336,14 @@ theorem issued_of_new (s : State) (hi : Inv s) (op : Op) (k : AddrStr) (l : Lic)
   obtain ⟨hacc, hok, hshape⟩ := new_licence s op k l h0 h1
   have hnone := inv_no_licence_of_no_account hi k.addr hacc
   have hpos := ((inv_step hi op).lic k l h1).2
+  have hbase := ((inv_step hi op).lic k l h1).1
   rcases hshape with ⟨sg, cr, amt, d, m, now, hop, hl⟩ | ⟨ch, g, ct, now, hop, hl⟩
   · subst hop
     simp only [step] at hok h1 ⊢
     obtain ⟨_, c, hc, hamt, _, _, _, hsp, hs'⟩ := create_ok _ _ _ _ _ _ _ _ hok
     cases hc
     have hle : amt.toNat ≤ s.bal cr d := by unfold spendable at hsp; omega
-    refine ⟨hok, hacc, hnone, hpos, ?_, Or.inl ⟨sg, cr, amt, d, m, now, rfl, hl, ?_⟩⟩
+    refine ⟨hok, hacc, hnone, hpos, h1, hbase, ?_, Or.inl ⟨sg, cr, amt, d, m, now, rfl, hl, ?_⟩⟩
     · simp only [step]; rw [hs', hl]; simp [licState, upd]
     · simp only [step]; rw [hs']; simp [licState, upd2]; omega
   · subst hop
@@ -1348,7 +1351,7 @@ theorem issued_of_new (s : State) (hi : Inv s) (op : Op) (k : AddrStr) (l : Lic)
     obtain ⟨_, _, _, fg, fl, f, c, _, hfl, hf, _, hc, _, _, _, hsp, _, hs'⟩ := sale_ok _ _ _ _ _ _ hok
     cases hc
     have hle : (g * (grain : Int)).toNat ≤ s.bal f bondDenom := by unfold spendable at hsp; omega
-    refine ⟨hok, hacc, hnone, hpos, ?_, Or.inr ⟨ch, g, ct, now, f, rfl, hl, ⟨fl, hfl, hf⟩, ?_⟩⟩
+    refine ⟨hok, hacc, hnone, hpos, h1, hbase, ?_, Or.inr ⟨ch, g, ct, now, f, rfl, hl, ⟨fl, hfl, hf⟩, ?_⟩⟩
     · simp only [step]; rw [hs', hl]; simp [licState, upd]
     · simp only [step]; rw [hs']; simp [licState, upd2]; omega
 
@@ -1511,6 +1514,77 @@ theorem run_feegranter (s : State) (ops : List Op) (g : Addr) (h : (run s ops).f
     · rcases step_feegranter s op g h' with h'' | h''
       · exact Or.inl h''
       · exact Or.inr (by rw [h'']; exact List.mem_cons_self)
+    · exact Or.inr (List.mem_cons_of_mem _ h')
+
+theorem touchAcct_funders (s : State) (a : Addr) : (touchAcct s a).funders = s.funders := by
+  unfold touchAcct; split <;> rfl
+
+def Op.isSetFunders : Op → Bool
+  | .setFunders _ => true
+  | _ => false
+
+theorem step_funders (s : State) (op : Op) (h : op.isSetFunders = false) :
+    (step s op).1.funders = s.funders := by
+  cases op with
+  | create sg cr cl amt d m now =>
+    simp only [step]
+    cases hr : (create s sg cr cl amt d m now).2 with
+    | rejected => rw [create_rejected _ _ _ _ _ _ _ _ hr]
+    | ok =>
+      obtain ⟨_, c, _, _, _, _, _, _, hs'⟩ := create_ok _ _ _ _ _ _ _ _ hr
+      rw [hs']; rfl
+  | sale ch cl g ct now =>
+    simp only [step]
+    cases hr : (sale s ch cl g ct now).2 with
+    | rejected => rw [sale_rejected _ _ _ _ _ _ hr]
+    | ok =>
+      obtain ⟨_, _, _, fg, fl, f, c, _, _, _, _, _, _, _, _, _, _, hs'⟩ := sale_ok _ _ _ _ _ _ hr
+      rw [hs']; rfl
+  | activate sg cr now =>
+    simp only [step]
+    cases hr : (activate s sg cr now).2 with
+    | rejected => rw [activate_rejected _ _ _ _ hr]
+    | ok =>
+      obtain ⟨_, l, _, _, _, _, hs'⟩ := activate_ok _ _ _ _ hr
+      rw [hs']
+  | auth sg cr => simp only [step, auth_state]
+  | legacy sg cr =>
+    simp only [step]; unfold legacy
+    repeat' split
+    all_goals rfl
+  | send x y d' amt now =>
+    simp only [step]; unfold send
+    repeat' split
+    all_goals first | rfl | exact touchAcct_funders _ _
+  | grant g e =>
+    simp only [step]; unfold grant
+    repeat' split
+    all_goals first | rfl | exact touchAcct_funders _ _
+  | gift x d' amt now =>
+    simp only [step]; unfold gift
+    repeat' split
+    all_goals rfl
+  | fund x d' amt => simp only [step]; unfold fund; exact touchAcct_funders _ _
+  | setFeegranter x => rfl
+  | setFunders l => simp [Op.isSetFunders] at h
+  | setContracts c => rfl
+
+/-- a funder list in force after a history was either there before or written by a
+`SetLightNodeClientFundersProposal` of the history carrying exactly that list -/
+theorem run_funders (s : State) (ops : List Op) (fl : List Addr) (h : (run s ops).funders = some fl) :
+    s.funders = some fl ∨ Op.setFunders fl ∈ ops := by
+  induction ops generalizing s with
+  | nil => exact Or.inl h
+  | cons op ops ih =>
+    rcases ih _ h with h' | h'
+    · cases hop : op.isSetFunders with
+      | false => rw [step_funders s op hop] at h'; exact Or.inl h'
+      | true =>
+        cases op with
+        | setFunders l =>
+          simp only [step, Option.some.injEq] at h'
+          exact Or.inr (by rw [h']; exact List.mem_cons_self)
+        | _ => simp [Op.isSetFunders] at hop
     · exact Or.inr (List.mem_cons_of_mem _ h')
 
 /-! ### who can be debited, and by how much -/
@@ -1959,8 +2033,14 @@ theorem activate_requires (s : State) (sg : Addr) (k : AddrStr) (now : Nat)
 
 /-- **grant_origin**: a fee grant `g → e` present after a history was written by one accepted operation of
 that history: a `MsgGrantAllowance` from `g` to `e` — which only `g` itself can sign (ASSUMPTION, SDK: x/auth
-signature verification of the granter) — or a sale for client `e` executed while `g` was the address
-governance had configured as light-node fee granter. -/
+signature verification of the granter; this is why `Op.grant g e` carries no separate signer: the granter IS
+the signer) — or a sale for client `e` executed while `g` was the address governance had configured as
+light-node fee granter.
+SCOPE: the op alphabet has no `MsgRevokeAllowance` and no allowance expiry, so in the model the grant table only
+grows and "was issued earlier in the history" is the same as "is in force".  On the chain a granter can revoke;
+this direction of the statement (every grant IN FORCE was issued by its granter or by a sale under the
+governance-configured fee granter) is not affected by revocations, but the converse reading ("issued, hence still
+usable") is a property of the model only. -/
 theorem grant_origin (ops : List Op) (g e : Addr) (h : (g, e) ∈ (run State.init ops).grants) :
     ∃ pre op post, ops = pre ++ op :: post ∧ (step (run State.init pre) op).2 = .ok ∧
       (op = .grant g e ∨
@@ -1993,7 +2073,9 @@ the licence stored under `k` is signed
      `MsgGrantAllowance` from `k.addr`, which only `k.addr` can sign), or
  (3) by the client of an earlier accepted sale that ran while the licensed address was the fee granter
      configured by governance (`SetLightNodeClientFeegranter k.addr` is in the history before that sale).
-Nobody else can activate a licence.  In every case the coins go to the licensed address (`activation_exact`). -/
+Nobody else can activate a licence.  In every case the coins go to the licensed address (`activation_exact`).
+The clause AS WORDED ("only by the licensed address itself") is false: `activate_only_by_licensee_false`.
+SCOPE: no revocation in the op alphabet, see `grant_origin` ("earlier in the history" = "in force"). -/
 theorem activate_only_by_licensee_or_delegate (ops : List Op) (sg : Addr) (k : AddrStr) (now : Nat)
     (hok : (activate (run State.init ops) sg k now).2 = .ok) :
     (k.upper = false ∧ sg = k.addr) ∨
@@ -2203,11 +2285,22 @@ theorem vesting_linear (orig start stop : Nat) :
   · intro t h1 h2
     exact vestedAt_linear orig start stop t h1 h2
 
-/-- **locked_enforced** — for EVERY operation of the model, not just the bank send: whenever a step lowers
-the balance of an account (the creator paying for a licence, the funder of a sale, the sender of a bank transfer
-or of a gift — nothing else debits anybody), what remains is at least what is still locked (unvested) at the
-block time of that step.  So an activated address can move the licensed coins only as they vest, through
-whichever path. -/
+/-- **locked_enforced** — for every operation OF THE MODEL'S ALPHABET (`Op`), not just the bank send: whenever a
+step lowers the balance of an account (the creator paying for a licence, the funder of a sale, the sender of a
+bank transfer or of a gift — nothing else in the alphabet debits anybody), what remains is at least what is still
+locked (unvested) at the block time of that step.  So an activated address can move the licensed coins only as
+they vest, through whichever of these paths.
+
+EXCLUSION (not in the op alphabet, not driven by the harness): x/staking `MsgDelegate` / `MsgUndelegate` /
+redelegation, transaction fees, x/distribution and x/gov deposits, IBC / skyway transfers out.  All but one of
+them debit through the bank's `subUnlockedCoins` (spendable = balance − locked), the rule `send` models.  The
+exception is DELEGATION: the SDK lets a vesting account delegate coins that are still locked
+(`DelegateCoins` checks the total balance and `TrackDelegation` records them as `DelegatedVesting`), so after a
+delegation the bank balance CAN be lower than `orig − vested`; the SDK's own `LockedCoins` then is
+`max(orig − vested − DelegatedVesting, 0)`.  For an account that delegates, this theorem and
+`vested_only_spendable` therefore have to be read as "balance + delegated-vesting ≥ unvested"; the model does not
+state that (it has no delegation ledger), and the theorems below say nothing about histories containing
+staking messages of the licensed address. -/
 theorem locked_enforced (s : State) (op : Op) (x : Addr) (d : Denom)
     (h : (step s op).1.bal x d < s.bal x d) :
     ∃ now, op.time = some now ∧ locked s x d now ≤ (step s op).1.bal x d :=
@@ -2233,10 +2326,17 @@ theorem locked_enforced_send (s : State) (a : Addr) (b : Option Addr) (d : Denom
           omega
 
 /-- **vested_only_spendable** (history level: "a continuously vesting balance that unlocks linearly").  After an
-accepted activation at block time `now`, through EVERY later history — any operations by anybody, accepted or
-rejected — whose block times do not exceed `T`, the licensed address still holds at least the part of the licence
-that is locked at `T` under the schedule `(l.amount, now, addMonths now l.months)`: at most the vested part
-(`vesting_linear`) has ever left the account. -/
+accepted activation at block time `now`, through EVERY later history OVER THE MODEL'S OP ALPHABET — any of its
+operations by anybody, accepted or rejected — whose block times do not exceed `T`, the licensed address still
+holds at least the part of the licence that is locked at `T` under the schedule
+`(l.amount, now, addMonths now l.months)`: at most the vested part (`vesting_linear`) has ever left the account.
+
+EXCLUSION: as for `locked_enforced` — staking (delegate / undelegate / redelegate) and the other debit paths of
+the chain are not in the alphabet; a vesting account may delegate unvested coins, which lowers its bank balance
+below the locked amount while the coins stay staked in its name.
+TIMES: the block time of every operation is an INPUT of the operation (`Op.time`); the theorem holds for
+arbitrary, even non-monotone, time stamps bounded by `T`, hence in particular for the non-decreasing block times
+of a real chain (take `T` = the latest block time). -/
 theorem vested_only_spendable (s : State) (sg : Addr) (k : AddrStr) (now : Nat)
     (hok : (activate s sg k now).2 = .ok) (ops : List Op) (T : Nat)
     (ht : ∀ op ∈ ops, ∀ t, op.time = some t → t ≤ T) :
@@ -2250,7 +2350,9 @@ theorem vested_only_spendable (s : State) (sg : Addr) (k : AddrStr) (now : Nat)
   have hle := (vesting_linear l.amount now (addMonths now l.months)).2.2.2.1 T
   refine ⟨l, hl, locked_kept_run _ k.addr l.amount l.denom now _ T hv (by omega) ops ht⟩
 
-/-- the vesting schedule written at activation is the one in force after any later history -/
+/-- the vesting schedule written at activation is the one in force after any later history over the model's op
+alphabet (EXCLUSION as for `locked_enforced`: no staking messages — a delegation would change the SDK's
+`LockedCoins` through `DelegatedVesting`, not the schedule itself) -/
 theorem vesting_schedule_fixed (s : State) (sg : Addr) (k : AddrStr) (now : Nat)
     (hok : (activate s sg k now).2 = .ok) (ops : List Op) :
     ∃ l, lookupLic s.lics k = some l ∧
@@ -2262,7 +2364,14 @@ theorem vesting_schedule_fixed (s : State) (sg : Addr) (k : AddrStr) (now : Nat)
   exact ⟨l, hl, fun t => by simp [locked, lockedOf, hv']⟩
 
 /-- **sale_all_or_nothing**, "nothing": a sale that does not create a licence leaves the state exactly as it
-was — no account for the client, no licence, no fee grant, no funder debited, escrow untouched. -/
+was — no account for the client, no licence, no fee grant, no funder debited, escrow untouched.
+TRUE BY CONSTRUCTION OF THE MODEL: `sale` returns the input state on every error branch, because
+`processAttestation` runs `handleLightNodeSale` in a cache context that is written back only when the handler
+returns nil (ASSUMPTION: that commit-on-nil wrapper, x/skyway/keeper/attestation.go; inside it the keeper has
+already created the client's base account before the funding transfer can fail).  The theorem therefore only
+records that every rejecting branch of the model is of that shape; that the IMPLEMENTATION is atomic here is
+checked by the harness on the real code (monitors `failed_op_is_noop` — whole-store digest equal after a rejected
+sale — and `sale_all_or_nothing`, incl. the directed rollback history that fails after the account creation). -/
 theorem sale_all_or_nothing (s : State) (ch : Chain) (cl : Option AddrStr) (g : Int) (ct now : Nat)
     (h : (sale s ch cl g ct now).2 = .rejected) : (sale s ch cl g ct now).1 = s :=
   sale_rejected s ch cl g ct now h
@@ -2347,8 +2456,38 @@ theorem sale_authorised_by_governance (ops : List Op) (ch : Chain) (cl : Option 
   · simp [State.init] at h
   · exact h
 
+/-- **sale_configured_by_governance** (history level, "only if funders, fee granter and an authorised sale
+contract are configured" — and WHO configured them).  If after ANY history from the empty chain state an
+attested sale creates a licence, then the history contains a `SetLightNodeSaleContractsProposal` listing the
+claimed contract string for the claim's chain, a `SetLightNodeClientFeegranterProposal` for exactly the fee
+granter in force (the granter of the fee grant the sale writes), and a `SetLightNodeClientFundersProposal`
+carrying exactly the funder list in force, of which the debited payer is a member.  No message, sale, transfer
+or fee grant ever changes the three settings (`run_contracts`, `run_feegranter`, `run_funders`).
+ASSUMPTION (x/gov): the three `set…` operations are the handlers of governance proposals; nobody but the gov
+module can run them. -/
+theorem sale_configured_by_governance (ops : List Op) (ch : Chain) (cl : Option AddrStr) (g : Int)
+    (ct now : Nat) (hok : (sale (run State.init ops) ch cl g ct now).2 = .ok) :
+    (∃ l, Op.setContracts l ∈ ops ∧ (ch, ct) ∈ l) ∧
+    ∃ fg fl f c, cl = some c ∧
+      (run State.init ops).feegranter = some fg ∧ Op.setFeegranter fg ∈ ops ∧
+      (run State.init ops).funders = some fl ∧ Op.setFunders fl ∈ ops ∧ f ∈ fl ∧
+      (sale (run State.init ops) ch cl g ct now).1.bal f bondDenom + (g * (grain : Int)).toNat =
+        (run State.init ops).bal f bondDenom ∧
+      (fg, c.addr) ∈ (sale (run State.init ops) ch cl g ct now).1.grants := by
+  refine ⟨sale_authorised_by_governance ops ch cl g ct now hok, ?_⟩
+  obtain ⟨_, fg, fl, f, c, hfg, hfl, hf, hcl, _, _, hrest⟩ := sale_requires_config _ ch cl g ct now hok
+  refine ⟨fg, fl, f, c, hcl, hfg, ?_, hfl, ?_, hf, hrest.1, hrest.2.2.2⟩
+  · rcases run_feegranter State.init ops fg hfg with h | h
+    · simp [State.init] at h
+    · exact h
+  · rcases run_funders State.init ops fl hfl with h | h
+    · simp [State.init] at h
+    · exact h
+
 /-- **failed_op_is_noop**: every rejected operation of the model (message, attested sale or gift) leaves
-the state unchanged. -/
+the state unchanged.  TRUE BY CONSTRUCTION of the model's step functions (each error branch returns the input
+state); the corresponding fact about the implementation is an ASSUMPTION on baseapp's per-message cache and on
+`processAttestation`'s cache context, observed by the harness monitor of the same name (store digests). -/
 theorem failed_op_is_noop (s : State) (op : Op) (h : (step s op).2 = .rejected) : (step s op).1 = s := by
   cases op with
   | create sg cr cl amt d m now => exact create_rejected _ _ _ _ _ _ _ _ h
@@ -2424,12 +2563,30 @@ theorem activation_by_sale_client_reachable :
     rw [h]; simp
   simp [exOps] at this
 
+/-- hence the clause "a licence … is activated … only by the licensed address itself", at full strength, is
+FALSE in the model — and in the implementation: both witness histories are replayed by the harness on the real
+app (stats `activate.by_delegate`, `activate.by_sale_client_of_feegranter_licensee`; the second one is the known
+finding `C18-feegranter-licensee`). -/
+theorem activate_only_by_licensee_false :
+    ¬ ∀ (ops : List Op) (sg : Addr) (k : AddrStr) (now : Nat),
+        (activate (run State.init ops) sg k now).2 = .ok → sg = k.addr := by
+  intro H
+  obtain ⟨ops, sg, k, now, hok, hne, _⟩ := activation_by_delegate_reachable
+  exact hne (H ops sg k now hok)
+
+-- `sale_configured_by_governance` is not vacuous: the sale of `exOps` runs after the three proposals
+example : (sale (run State.init (exOps.take 6)) 0 (some ⟨5, false⟩) 5 1 110).2 = .ok ∧
+    Op.setFeegranter 0 ∈ exOps.take 6 ∧ Op.setFunders [1] ∈ exOps.take 6 ∧
+    Op.setContracts [(0, 1)] ∈ exOps.take 6 := by
+  refine ⟨by decide, ?_, ?_, ?_⟩ <;> simp [exOps]
+
 -- the counting form and the provenance theorems are not vacuous on this history: one accepted activation of 4
 -- among three attempts; the licence of 5 stems from the sale, that of 4 from the message
 example : activations 4 State.init (exOps ++ [.activate 0 ⟨4, false⟩ 190, .activate 4 ⟨4, false⟩ 200, .activate 4 ⟨4, false⟩ 300]) = 1 := by
   decide
 example : Issued (run State.init (exOps.take 5)) (.create 0 0 (some ⟨4, false⟩) 1000 0 3 100) ⟨4, false⟩ ⟨1000, 0, 3⟩ := by
-  refine ⟨by decide, by decide, ?_, by decide, by decide, Or.inl ⟨0, 0, 1000, 0, 3, 100, rfl, by decide, by decide⟩⟩
+  refine ⟨by decide, by decide, ?_, by decide, by decide, by decide, by decide,
+    Or.inl ⟨0, 0, 1000, 0, 3, 100, rfl, by decide, by decide⟩⟩
   intro k' _
   have : (run State.init (exOps.take 5)).lics = [] := by decide
   rw [this]; rfl
